@@ -69,6 +69,7 @@ type gen struct {
 	trail    cls    // class of comments trailing the previous token
 	capMay   bool   // inside a construct the formatter drops on purpose: nothing is "must"
 	pendNL   bool   // the next gap must contain a line break
+	mute     int    // > 0: no comments at all (inside a map key holding a struct literal)
 	noCmt    bool   // program without comments
 	noMay    bool   // no comments between the tokens of one item (class "may")
 	area     string // grammar area of the gap being emitted (for class "may" comments)
@@ -236,7 +237,7 @@ func (g *gen) blockComment(c cls, multi bool, label string) string {
 }
 
 func (g *gen) wantComment(c cls, label string) bool {
-	if c == clsNone || g.noCmt || (c == clsMay && (g.noMay || g.mayOff[g.area])) {
+	if c == clsNone || g.noCmt || g.mute > 0 || (c == clsMay && (g.noMay || g.mayOff[g.area])) {
 		return false
 	}
 	if !g.chance(g.cmtPct, label) {
@@ -742,7 +743,15 @@ func (g *gen) dataType(depth int, structOK bool, k gapKind, head cls) {
 		// comments inside a map key are dropped on purpose (golden tests, /*xx*/ markers)
 		oldCap := g.capMay
 		g.capMay = true
-		g.dataType(depth-1, g.chance(4, "mapkeystruct"), gAny, clsMay)
+		keyStruct := g.chance(4, "mapkeystruct")
+		if keyStruct {
+			// domain cut: a map key that may contain a struct literal carries no comments
+			g.mute++
+		}
+		g.dataType(depth-1, keyStruct, gAny, clsMay)
+		if keyStruct {
+			g.mute--
+		}
 		g.capMay = oldCap
 		g.tok("]", gAny, clsMay)
 		g.dataType(depth-1, true, gAny, clsMay)
@@ -983,25 +992,30 @@ func (g *gen) serviceItem() {
 		return clsMay
 	}
 	g.path()
-	g.area = "routebody"
+	g.area = "afterpath"
 	g.tr(endCls(!hasReq && !hasResp, false))
 	if hasReq {
 		if reqEmpty {
 			g.tok("(", gAny, clsMay)
+			g.area = "inbody"
 			g.tok(")", gAny, clsMay)
 		} else {
 			g.body()
 		}
+		g.area = "afterreq"
 		g.tr(endCls(!hasResp, reqEmpty))
 	}
 	if hasResp {
 		g.tok("returns", gAny, clsMay)
+		g.area = "afterreturns"
 		if respEmpty {
 			g.tok("(", gAny, clsMay)
+			g.area = "inbody"
 			g.tok(")", gAny, clsMay)
 		} else {
 			g.body()
 		}
+		g.area = "afterresp"
 		g.tr(endCls(true, respEmpty))
 	}
 	if semi {
@@ -1063,6 +1077,7 @@ func (g *gen) tight(text string) {
 // body: '(' ['[' ']'] ['*'] IDENT ')'   (parseBodyStmt / parseBodyExpr)
 func (g *gen) body() {
 	g.tok("(", gAny, clsMay)
+	g.area = "inbody"
 	if g.chance(25, "bodyslice") {
 		g.tok("[", gAny, clsMay)
 		g.tok("]", gAny, clsMay)
